@@ -1,6 +1,7 @@
 package main
 
 import (
+	"bufio"
 	"bytes"
 	"encoding/json"
 	"fmt"
@@ -37,6 +38,7 @@ type DiskFault struct {
 	Arg     int    `json:"arg"`
 	Partial bool   `json:"partial,omitempty"`
 	Transient bool `json:"transient,omitempty"`
+	ByteSink  bool `json:"bytesink,omitempty"`
 }
 
 type DiskCase struct {
@@ -379,12 +381,21 @@ func (e *diskEngine) sweepNode(w *World, n *Node, st *State, dc *DiskCase, stats
 	base := e.observe(orig, n, st, seed)
 	// (i) reader chunkings
 	if want("chunk") {
-		for _, mode := range []int{0, 1, 2, 3, 4, 5, 10} {
+		for _, mode := range []int{0, 1, 2, 3, 4, 5, 10, 11, 12, 13} {
 			if only != nil && only.Arg != mode {
 				continue
 			}
 			cr := newChunkReader(data, mode, seed^uint64(mode))
-			inst, c2, err, pan := e.restore(n, seed, cr)
+			var rd io.Reader = cr
+			switch mode {
+			case 11:
+				rd = bytes.NewBuffer(append([]byte(nil), data...)) // the concrete types a caller
+			case 12:
+				rd = bytes.NewReader(data) // is most likely to hand over
+			case 13:
+				rd = bufio.NewReaderSize(newChunkReader(data, 3, seed^13), 16)
+			}
+			inst, c2, err, pan := e.restore(n, seed, rd)
 			stats.Faults["chunked_restore"]++
 			stats.Faults["short_read"] += cr.short
 			stats.Faults["eof_with_data"] += cr.eofWithData
@@ -452,7 +463,14 @@ func (e *diskEngine) sweepNode(w *World, n *Node, st *State, dc *DiskCase, stats
 			if cut%3 == 1 {
 				mode = 4 // the last bytes arrive together with io.EOF
 			}
-			inst, _, err, pan := e.restore(n, seed, newChunkReader(data[:cut], mode, seed))
+			var rd io.Reader = newChunkReader(data[:cut], mode, seed)
+			switch cut % 5 {
+			case 2:
+				rd = bytes.NewBuffer(append([]byte(nil), data[:cut]...))
+			case 4:
+				rd = bytes.NewReader(data[:cut])
+			}
+			inst, _, err, pan := e.restore(n, seed, rd)
 			stats.Faults["prefix_cut"]++
 			switch {
 			case pan:
@@ -474,13 +492,16 @@ func (e *diskEngine) sweepNode(w *World, n *Node, st *State, dc *DiskCase, stats
 	// (iii) failing sink at every offset
 	if want("wfail") {
 		for _, lim := range offs {
-			for variant := 0; variant < 3; variant++ {
-				// the sink fails for good (reporting 0 or the bytes it took), or for one write only
-				partial, transient := variant == 1, variant == 2
-				if only != nil && only.Arg >= 0 && (only.Arg != lim || only.Partial != partial || only.Transient != transient) {
+			for variant := 0; variant < 4; variant++ {
+				// the sink fails for good (reporting 0 or the bytes it took), or for one write
+				// only; variant 3: a sink that also implements io.ByteWriter (as bytes.Buffer
+				// and bufio.Writer do) and fails for good
+				partial, transient := variant == 1, variant == 2 || variant == 3 && lim%2 == 1
+				byteSink := variant == 3
+				if only != nil && only.Arg >= 0 && (only.Arg != lim || only.Partial != partial || only.Transient != transient || only.ByteSink != byteSink) {
 					continue
 				}
-				fl := DiskFault{Node: n.idx, Kind: "wfail", Arg: lim, Partial: partial, Transient: transient}
+				fl := DiskFault{Node: n.idx, Kind: "wfail", Arg: lim, Partial: partial, Transient: transient, ByteSink: byteSink}
 				if !ordered {
 					fl.Arg = -1
 				}
@@ -489,7 +510,12 @@ func (e *diskEngine) sweepNode(w *World, n *Node, st *State, dc *DiskCase, stats
 					stats.Faults["writer_failed_once"]++
 				}
 				var c2 int64
-				err, pan := guard(func() error { var e2 error; c2, e2 = orig.write(fw); return e2 })
+				var sink io.Writer = fw
+				if byteSink {
+					sink = &failByteWriter{fw}
+					stats.Faults["writer_failed_bytewriter_sink"]++
+				}
+				err, pan := guard(func() error { var e2 error; c2, e2 = orig.write(sink); return e2 })
 				stats.Faults["writer_failed"]++
 				switch {
 				case pan:
